@@ -121,7 +121,7 @@ class SmiV2Lexer(AbstractLexer):
 
     # Skipping MACRO
     def t_MACRO(self, t):
-        r'MACRO(?!-(?!-)|[a-zA-Z0-9])'
+        r'MACRO(?!-(?!-)|[a-zA-Z0-9_])'
         t.lexer.begin('macro')
         return t
 
@@ -130,12 +130,12 @@ class SmiV2Lexer(AbstractLexer):
         t.lexer.lineno += 1
 
     def t_macro_END(self, t):
-        r'(?<![-a-zA-Z0-9"])END(?!-(?!-)|[a-zA-Z0-9"])'
+        r'(?<![-a-zA-Z0-9_"])END(?!-(?!-)|[a-zA-Z0-9_"])'
         t.lexer.begin('INITIAL')
         return t
 
     def t_macro_body(self, t):
-        r'.+?(?=(?<![-a-zA-Z0-9"])END(?!-(?!-)|[a-zA-Z0-9"]))'
+        r'.+?(?=(?<![-a-zA-Z0-9_"])END(?!-(?!-)|[a-zA-Z0-9_"]))'
         t.lexer.lineno += len(re.findall(r'\r\n|\n|\r', t.value))
 
     def t_macro_error(self, t):
@@ -143,7 +143,7 @@ class SmiV2Lexer(AbstractLexer):
 
     # Skipping EXPORTS
     def t_EXPORTS(self, t):
-        r'EXPORTS(?!-(?!-)|[a-zA-Z0-9])'
+        r'EXPORTS(?!-(?!-)|[a-zA-Z0-9_])'
         t.lexer.begin('exports')
         return t
 
@@ -165,7 +165,7 @@ class SmiV2Lexer(AbstractLexer):
 
     # Skipping CHOICE
     def t_CHOICE(self, t):
-        r'CHOICE(?!-(?!-)|[a-zA-Z0-9])'
+        r'CHOICE(?!-(?!-)|[a-zA-Z0-9_])'
         t.lexer.begin('choice')
         t.lexer.choiceBraces = 0
         return t
